@@ -45,7 +45,7 @@ def ensure_built(clean=False):
         for pat in ("*.vo", "*.vok", "*.vos", "*.glob", ".*.aux", "Makefile", "Makefile.conf", ".Makefile.d", "*.log"):
             for p in glob.glob(os.path.join(COQ, pat)):
                 os.remove(p)
-    if not os.path.exists(os.path.join(COQ, "Makefile")):
+    if not newer(os.path.join(COQ, "Makefile"), [os.path.join(COQ, "_CoqProject")]):
         r = run(["coq_makefile", "-f", "_CoqProject", "-o", "Makefile"], cwd=COQ)
         if r.returncode != 0:
             st["ok"] = False
